@@ -844,3 +844,31 @@ impl Default for FailSafe {
         Self::new()
     }
 }
+
+#[cfg(rs_matter_verif)]
+impl FailSafe {
+    /// Verification hook: a plain-data snapshot of the fail-safe context.
+    pub fn verif_snapshot(&self) -> crate::verif::FailSafeSnap {
+        let (armed, armed_at_ms, timeout_secs, fab_idx, flags) = match &self.state {
+            State::Idle => (false, 0, 0, 0, 0),
+            State::Armed(ctx) => (
+                true,
+                ctx.armed_at.as_millis(),
+                ctx.timeout_secs,
+                ctx.fab_idx,
+                ctx.flags.bits(),
+            ),
+        };
+
+        crate::verif::FailSafeSnap {
+            armed,
+            armed_at_ms,
+            timeout_secs,
+            fab_idx,
+            flags,
+            breadcrumb: self.breadcrumb,
+            root_ca_len: self.root_ca.len(),
+            has_secret_key: self.secret_key.access() != PKC_SECRET_KEY_ZEROED.access(),
+        }
+    }
+}
